@@ -38,14 +38,34 @@ class Ref:
         return [v for v, _ in self.items]
 
 
+class It(tuple):
+    """(value, u) of a member, plus what the sort keys of the harness read off the member"""
+    extra = None
+
+
+def _item(m):
+    it = It((m.value, m.u))
+    extra = {}
+    try:
+        extra["len"] = len(m)
+    except Exception:
+        extra["len"] = None
+    try:
+        fs = getattr(m, "field_schema", None)
+        extra["field"] = m[fs[0].name].u if fs else None
+    except Exception:
+        extra["field"] = None
+    it.extra = extra
+    return it
+
+
 def _adapted(ex, tagged):
     """(value, u) an argument contributes: an Element as it is, a plain value through the member
     schema (adaptation itself is C04's business, it is taken as given here)"""
     tag, v = tagged
     if tag == "elem":
-        return (v.value, v.u)
-    el = ex.root.member_schema(v)
-    return (el.value, el.u)
+        return _item(v)
+    return _item(ex.root.member_schema(v))
 
 
 def _unadapted(pair):
@@ -96,7 +116,53 @@ def _expected_after_default(ex, before_values):
     return None if isinstance(r, tuple) else r
 
 
+def _expected_after_flat(ex, pairs):
+    """members' values after seq.set_flat(pairs) in the simple shapes: a List / named Array / named MultiValue of
+    scalar members, every key either exactly addressing a member (`name_<i>[_member]`, `name[_member]`) or not
+    starting with the sequence's name at all.  None = not predicted (aliases, junk continuations, ... are C01/C02's)"""
+    import re
+    root = ex.root
+    kind = G.kind_of_element(root)
+    ms = root.member_schema
+    if G.kind_of_class(ms) not in ("integer", "string"):
+        return None
+    name, mname = root.name, ms.name
+    prune = bool(getattr(root, "prune_empty", True))
+    if kind == "list":
+        prefix = (name + "_") if name else ""
+        exact = re.compile("^" + re.escape(prefix) + r"([0-9]{1,3})" + ("_" + re.escape(mname) if mname else "") + "$")
+        by_index = {}
+        for k, v in pairs:
+            m = exact.match(k)
+            if m is None:
+                if (name and k.startswith(name)) or (not name and k[:1].isdigit()):
+                    return None            # a key that may still address something: not predicted here
+                continue
+            if v == "" and prune:
+                continue
+            by_index.setdefault(int(m.group(1)), v)      # the first pair of a slot wins
+        if not prune:
+            return None
+        vals = [by_index[i] for i in sorted(by_index)]
+    elif kind in ("array", "multi") and name:
+        want = name + ("_" + mname if mname else "")
+        vals = []
+        for k, v in pairs:
+            if k == want:
+                if v == "" and prune:
+                    continue
+                vals.append(v)
+            elif k.startswith(name):
+                return None
+    else:
+        return None
+    r = _adapt_all(ex, vals)
+    return None if isinstance(r, tuple) else r
+
+
 def _expected_after_route(ex, init, out):
+    if init["route"] in ("from_flat", "set_flat") and not (isinstance(out, dict) and "exc" in out):
+        return _expected_after_flat(ex, init.get("pairs") or [])
     route = init["route"]
     if isinstance(out, dict) and "exc" in out:
         return [] if route in ("ctor_value", "from_defaults") else None
@@ -132,7 +198,7 @@ def make_check():
 
         if info["init"]:
             ref = Ref()
-            ref.items = [(m.value, m.u) for m in root]     # the list the construction route produced
+            ref.items = [_item(m) for m in root]     # the list the construction route produced
             state["ref"] = ref
             exp = _expected_after_route(ex, ex.case["init"], info["out"])
             if exp is not None and exp != ref.values():
@@ -190,18 +256,63 @@ def make_check():
                             items.sort(key=lambda p: p[1], reverse=bool(op["rev"]))
                         elif op.get("key") == "ulen":
                             items.sort(key=lambda p: len(p[1]), reverse=bool(op["rev"]))
+                        elif op.get("key") in ("len", "field"):
+                            if any(p.extra is None or p.extra.get(op["key"]) is None for p in items):
+                                exp_exc = "KeyRaises"        # the key function raises on some member: so must sort()
+                            else:
+                                items.sort(key=lambda p: p.extra[op["key"]], reverse=bool(op["rev"]))
                         # sort() without a key: a list of elements raises TypeError; not demanded
+                    elif name == "reversed":
+                        exp_ret = list(reversed(items))
+                    elif name == "imul_bad":
+                        try:
+                            items *= {"float": 2.5, "str": "a", "none": None}[op["x"]]
+                        except TypeError:
+                            exp_exc = "TypeError"
+                    elif name == "set_mixed":
+                        ref.items = [_item(m) for m in root]
+                        if raised is None:
+                            want, elem_pos = [], []
+                            for j, a in enumerate(info["args"]):
+                                try:
+                                    want.append(_adapted(ex, a)[0])
+                                except Exception:
+                                    want = None
+                                    break
+                                if a[0] == "elem":
+                                    elem_pos.append(j)
+                            got = ref.values()
+                            if want is not None and got != want:
+                                bad = [j for j in range(max(len(got), len(want)))
+                                       if j >= len(got) or j >= len(want) or got[j] != want[j]]
+                                extra["mismatch_positions"] = bad
+                                extra["element_positions"] = elem_pos
+                                # what `member_schema().set(<the Element>)` gives: that is what set() does today
+                                as_set = True
+                                for j in bad:
+                                    try:
+                                        tmp = root.member_schema()
+                                        tmp.set(info["args"][j][1])
+                                        as_set = as_set and j < len(got) and tmp.value == got[j]
+                                    except Exception:
+                                        as_set = False
+                                extra["observed_is_set_of_element"] = as_set
+                                extra["same_length"] = len(got) == len(want)
+                                fail("set-builds-adapted-list", G.vj(want), G.vj(got))
+                                extra.clear()
                     elif name == "clear":
                         items.clear()
                     elif name == "imul":
                         items *= op["n"]          # plain list semantics on the adapted items
                     elif name in ("set", "set_default", "set_flat"):
                         # construction routes: the reference restarts from what they produced ...
-                        ref.items = [(m.value, m.u) for m in root]
+                        ref.items = [_item(m) for m in root]
                         # ... which must be the adapted values of what was handed in
                         exp = None
                         if name == "set":
                             exp = _expected_after_set(ex, G.py(op["v"]))
+                        elif name == "set_flat":
+                            exp = _expected_after_flat(ex, op["pairs"])
                         elif name == "set_default":
                             exp = _expected_after_default(ex, [v for v, _ in before_pairs])
                         if exp is not None and raised is None and exp != ref.values():
@@ -242,7 +353,7 @@ def make_check():
                     obs_exc = rname
                     obs_ret = None if raised is not None or name == "remove" else \
                         (bool(info["ret"][1]) if name == "contains" else info["ret"][1])
-                    actual_pairs = [(m.value, m.u) for m in root]
+                    actual_pairs = [_item(m) for m in root]
                     agrees_value = (obs_exc == exp_exc) and (raised is not None or name == "remove" or obs_ret == exp_ret) \
                         and [v for v, _ in actual_pairs] == ref.values()
                     if not agrees_value:
@@ -261,10 +372,24 @@ def make_check():
                     # Dict member): the call must have raised and changed nothing that the list sees — except
                     # extend/iadd, which keep the items before the rejected one, as list.extend(generator) does
                     if name in ("extend", "iadd"):
-                        ref.items = [(m.value, m.u) for m in root]
+                        ref.items = [_item(m) for m in root]
                     if raised is None:
                         fail("rejected-argument-raises", "an exception", "returned normally")
                 elif name == "sort" and op.get("key") is None:
+                    # not demanded to succeed (elements define no ordering; sequence members compare as Python lists,
+                    # so a key-less sort may go through): if it returns, the members are a rearrangement of what was there
+                    # (CPython leaves the list rearranged also when a comparison raises half-way)
+                    now_items = [_item(m) for m in root]
+                    if sorted(repr(G.vj(v)) for v, _ in now_items) != sorted(repr(G.vj(v)) for v, _ in before_pairs):
+                        fail("keyless-sort-rearranges", G.vj([v for v, _ in before_pairs]), G.vj([v for v, _ in now_items]))
+                    ref.items = now_items
+                elif name == "imul_bad":
+                    if rname != exp_exc:
+                        fail("raises-like-list", exp_exc, rname)
+                elif name == "sort" and exp_exc == "KeyRaises":
+                    if raised is None:
+                        fail("sort-key-raises", "the key function's exception", "returned normally")
+                elif name == "set_mixed":
                     pass
                 else:
                     if exp_exc != (rname if rname in ("IndexError", "ValueError") else None) or \
@@ -287,6 +412,10 @@ def make_check():
                         elif name == "getitem":
                             if ret[1].value != exp_ret[0]:
                                 fail("getitem-equals-list", G.vj(exp_ret[0]), G.vj(ret[1].value))
+                        elif name == "reversed":
+                            got = [x.value for x in ret[1]]
+                            if got != [v for v, _ in exp_ret] or any(a is not b for a, b in zip(ret[1], reversed(list(root)))):
+                                fail("reversed-equals-list", G.vj([v for v, _ in exp_ret]), G.vj(got))
                         elif name == "getslice":
                             got = [x.value for x in ret[1]]
                             if got != [v for v, _ in exp_ret]:
@@ -300,6 +429,11 @@ def make_check():
                 i = info["op"]["i"]
                 i = i + len(old_vals) if i < 0 else i
                 blank = root.member_schema().value
+                try:
+                    root.member_schema(info["args"][0][1])
+                    extra["value_rejected_by_member_schema"] = False
+                except Exception:
+                    extra["value_rejected_by_member_schema"] = True
                 extra["inplace_shape"] = (len(now) == len(old_vals) and 0 <= i < len(old_vals)
                                           and all(now[j] == old_vals[j] for j in range(len(now)) if j != i)
                                           and now[i] in (old_vals[i], blank))
@@ -313,12 +447,12 @@ def make_check():
         got = [m.value for m in root]
         if got != ref.values():
             fail("members-equal-list", G.vj(ref.values()), G.vj(got))
-            ref.items = [(m.value, m.u) for m in root]     # resynchronise: report each divergence once
+            ref.items = [_item(m) for m in root]     # resynchronise: report each divergence once
         else:
             # the values agree; keep the text forms (read by the sort keys and by the (value, u) comparison of
             # KF-C09-a only) in step with the element — e.g. `*=` re-feeds values, so a copy of a Dict member holding
             # unadaptable text has the same value but not the same text
-            ref.items = [(m.value, m.u) for m in root]
+            ref.items = [_item(m) for m in root]
         if len(root) != len(ref.items):
             fail("len-equals-list", len(ref.items), len(root))
         if kind == "multi":
@@ -367,6 +501,18 @@ def eq_search_with_unadapted(case, failure):
             and failure.get("matches_value_u_list") is True and bool(failure.get("unadapted")))
 
 
+def set_feeds_elements_to_set(case, failure):
+    """class predicate of KF-C09-c: seq.set(iterable) whose iterable contains ready-made Elements: every member that
+    differs from the reference sits at the position of an Element item, and holds exactly what
+    `member_schema().set(<that Element>)` produces (the Element is fed to set() as if it were a plain value)"""
+    op = failure.get("op") or {}
+    bad = failure.get("mismatch_positions")
+    return (failure.get("clause") == "set-builds-adapted-list" and op.get("op") == "set_mixed"
+            and failure.get("same_length") is True and bool(bad)
+            and set(bad) <= set(failure.get("element_positions") or [])
+            and failure.get("observed_is_set_of_element") is True)
+
+
 def _dictlike(v):
     return (isinstance(v, dict) and ("d" in v or "p" in v or v.get("l") == [])) or v == ""
 
@@ -379,7 +525,8 @@ def failed_inplace_set(case, failure):
     op = failure.get("op") or {}
     return (failure.get("clause") in ("members-equal-list", "value-equals-list")
             and failure.get("kind") == "list" and op.get("op") == "setitem" and failure.get("plain")
-            and (failure.get("raised") in ("KeyError", "TypeError") or not _dictlike((op.get("a") or {}).get("v")))
+            and ((failure.get("raised") in ("KeyError", "TypeError") and failure.get("value_rejected_by_member_schema") is True)
+                 or (failure.get("raised") is None and not _dictlike((op.get("a") or {}).get("v"))))
             and failure.get("inplace_shape") is True
             and case["schema"]["subs"][0]["k"] in ("dict", "sparse"))
 
@@ -451,11 +598,19 @@ class C09(Property):
                   "member_schema(value=...) accepts without raising, Element arguments are of the member schema; item "
                   "assignment of a plain value onto a List of Dict/SparseDict members needs a dict-like value "
                   "(SetItemOK/Resets; the excluded case is refuted: C09_fullMembers_fails = KF-C09-b); sort(key) needs "
-                  "scalar members; set(str|dict) is outside the model; set_default needs DefaultOK; *= with count>0 needs "
-                  "a non-MultiValue member schema whose re-fed values are accepted (automatic for Integer/String: "
-                  "imul_guard_scalar). positional_step — every call, every member schema. REFUTED reading: value-only "
-                  "(C09_Full, KF-C09-a). ORACLE ONLY: set_flat/from_flat, the flags returned by set(list), model paths "
-                  "answering `unsupported` (= the calls the guard excludes)")
+                  "the key to apply to every item (SortOK: e.u / len(e.u) on scalar members — automatic, sortOK_scalar —, "
+                  "len(e) on List/Array members, e[<first field>].u on Dict members); key-less sort needs items without "
+                  "ordering (a List's slots, or members that are not themselves sequences: List/Array/MultiValue members are "
+                  "Python lists and compare as such); set(str|dict) is outside the model; set_default needs DefaultOK; *= with count>0 (24425c6: copies are "
+                  "rebuilt from _replica_value(member), which keeps nested unadaptable texts and ALL members of a "
+                  "MultiValue) needs a non-MultiValue member schema whose re-fed values are accepted and NO MultiValue "
+                  "nested inside a member (ImulDeep/noMulti: a MultiValue shows as (value,u) by its first member only, so "
+                  "the reference list does not determine its copies) — automatic for Integer/String (imul_guard_scalar, "
+                  "imulDeep_scalar); with a MultiValue inside, *= is checked by correspondence and the value oracle only. positional_step — every call, every member schema. REFUTED reading: value-only "
+                  "(C09_Full, KF-C09-a). ORACLE ONLY: set_flat/from_flat (values predicted for the simple key shapes only, "
+                  "typing and positional naming always), set(<iterable containing Elements>) (KF-C09-c), *= with a "
+                  "non-integer count (TypeError), the flags returned by set(list), model paths answering `unsupported` (= "
+                  "the calls the guard excludes)")
     technique = "refinement proof (Lean 4) + differential testing against the implementation and a real Python list"
     trusted_base = [
         "CPython list semantics (index normalisation, PySlice_AdjustIndices, slice assignment/deletion, insert "
@@ -467,10 +622,13 @@ class C09(Property):
         "no string contains a quote or backslash (generator alphabet)",
     ]
     assumptions = [
-        "sort keys range over the family {u, len(u)} with and without reverse; sort() without key raises TypeError "
+        "sort keys range over the family {e.u, len(e.u), len(e), e[<first field>].u} with and without reverse (the last "
+        "two only work on MEMBERS, not on ListSlots: fix 5c843db); reversed(l) is observed as l[::-1]; sort() without key "
+        "raises TypeError "
         "as a list of elements does (recorded non-defect): its reference operation is ROp.sortNoKey (sort on items "
         "without ordering), not the sort of a list of ints",
-        "`*=` (Sequence.__imul__, commit 33a67e3: fresh members from the members' values) is modelled and compared; "
+        "`*=` (Sequence.__imul__, commits 33a67e3 / 24425c6: fresh members from _replica_value(member); non-integer "
+        "count raises TypeError) is modelled and compared, MultiValue and nested sequence members included; "
         "`+` and `*` return plain lists and are not element operations",
         "re-inserting an element that is already a member (`l.append(l[0])`) is aliasing, outside the quantifier",
         "Element arguments are fresh or detached elements of the member schema (no aliasing)",
@@ -478,7 +636,7 @@ class C09(Property):
     ]
     rule = ("histories of 1-14 list-protocol calls (all 25 operation kinds; indexes in -8..7, slices with "
             "None/negative/out-of-range bounds and steps in {None,1,2,3,-1,-2,0}) on a List / Array / MultiValue of "
-            "Integer, String or Dict members, started by a constructor/set/set_default/from_defaults route; arguments "
+            "Integer, String, Dict, List, Array or MultiValue members, started by a constructor/set/set_default/from_defaults route; arguments "
             "are plain values (valid, unadaptable, None), fresh Elements, or Elements detached earlier (pool); "
             "Cases the Lean model does not cover (set_flat/from_flat, model paths answering unsupported) are marked oracle-only before the run and are not counted as validated traces (tag model=oracle-only). "
             "Element arguments are read (root/path/parents/fq_name) before they are handed over in half of the cases; 'observe' steps only read. "
@@ -518,6 +676,9 @@ class C09(Property):
                     "ops": [_op({"op": "setitem", "i": 0, "a": {"v": {"d": [["zz", 3]]}}})]})
         out.append({"schema": _seq("list", D), "init": {"route": "ctor_value", "value": {"l": [{"d": [["x", 1], ["y", "a"]]}]}},
                     "ops": [_op({"op": "setitem", "i": 0, "a": {"v": 5}})]})
+        # open KF-C09-c: set() of an iterable that contains a ready-made Element
+        out.append({"schema": _seq("list", I, name="l"), "init": {"route": "ctor", "value": None}, "nomodel": True,
+                    "ops": [_op({"op": "set_mixed", "as": [{"new": 3}, {"v": 4}]})]})
         # past disagreements / edge shapes
         out.append({"schema": _seq("list", I), "init": {"route": "ctor_value", "value": {"l": [1, 2, 3, 4, 5]}},
                     "ops": [_op({"op": "setslice", "sl": [None, None, 2], "as": [{"v": 7}]}),
@@ -539,12 +700,16 @@ class C09(Property):
             kind = rng.choice(["list", "list", "array", "multi"])
             root_cid = cid()
             r = rng.random()
-            if r < 0.45:
+            if r < 0.4:
                 member = _int(cid(), rng.choice([None, None, "m"]))
-            elif r < 0.8:
+            elif r < 0.7:
                 member = _str(cid(), rng.choice([None, None, "m"]))
-            else:
+            elif r < 0.9:
                 member = _dict(cid(), [_int(cid(), "x"), _str(cid(), "y")], policy=rng.choice(["subset", "duck", "strict"]))
+            else:
+                # sequence members: List / Array / MultiValue of Integer or String
+                inner = _int(cid()) if rng.random() < 0.6 else _str(cid())
+                member = _seq(rng.choice(["list", "array", "multi"]), inner, cid=cid(), name=rng.choice([None, "m"]))
             hostile = rng.random() < 0.2
             schema = _seq(kind, member, cid=root_cid, name=rng.choice([None, "l"]))
             if rng.random() < 0.2:
@@ -552,17 +717,22 @@ class C09(Property):
                     schema["default"] = rng.randint(0, 3)
                 else:
                     schema["default"] = G.gen_value(rng, schema, valid=True)
-            if member["k"] != "dict" and rng.random() < 0.2:
+            if member["k"] in ("integer", "string") and rng.random() < 0.2:
                 member["default"] = G.gen_scalar_raw(rng)
             route = rng.choice(["ctor", "ctor_value", "ctor_value", "ctor_value", "set", "from_defaults", "set_default"])
             init = {"route": route, "value": G.gen_value(rng, schema, valid=not hostile)}
             # set_flat / from_flat (oracle only: the flat-key parser is C01/C02's model): a tenth of the histories;
             # Arrays/MultiValues are flattenable only with scalar members
-            flat = rng.random() < 0.1 and (kind == "list" or member["k"] != "dict")
+            flat = rng.random() < 0.1 and (kind == "list" or member["k"] in ("integer", "string"))
             if flat and rng.random() < 0.5:
                 init = {"route": rng.choice(["from_flat", "set_flat"]), "value": None, "pairs": G.gen_flat_pairs(rng, schema)}
             nops = rng.choice([1, 2, 3, 4, 6, 8, 10, 14])
             ops = [_op(G.gen_seq_op(rng, member, valid=not hostile, seq=schema if flat else None)) for _ in range(nops)]
+            # set(<iterable with Elements>) leaves members no other route can build (KF-C09-c: value None with text the
+            # member schema WOULD adapt); it is generated as the last call of a history so that the finding's class
+            # stays the call itself
+            mixed = [o for o in ops if o["s"]["op"] == "set_mixed"]
+            ops = [o for o in ops if o["s"]["op"] != "set_mixed"] + mixed[:1]
             case = {"schema": schema, "init": init, "ops": ops}
             if G.has_flat(case):
                 case["nomodel"] = True
@@ -591,6 +761,8 @@ class C09(Property):
         return super().compare(impl_obs, model_obs)
 
     def classify(self, case, failure):
+        if set_feeds_elements_to_set(case, failure):
+            return "KF-C09-c"
         if eq_search_with_unadapted(case, failure):
             return "KF-C09-a"
         if failed_inplace_set(case, failure):
